@@ -41,6 +41,7 @@ type NetflowV9 struct {
 	addr    string
 	workers int
 	stop    bool
+	done    chan struct{}
 	stats   NetflowV9Stats
 	pool    chan chan struct{}
 }
@@ -81,6 +82,7 @@ func NewNetflowV9() *NetflowV9 {
 		port:    opts.NetflowV9Port,
 		addr:    opts.NetflowV9Addr,
 		workers: opts.NetflowV9Workers,
+		done:    make(chan struct{}),
 	}
 }
 
@@ -151,6 +153,9 @@ func (i *NetflowV9) run() {
 		netflowV9UDPCh <- NetflowV9UDPMsg{raddr, b[:n]}
 	}
 
+	// no datagram is handed over any more
+	close(i.done)
+
 }
 
 func (i *NetflowV9) shutdown() {
@@ -163,6 +168,8 @@ func (i *NetflowV9) shutdown() {
 	i.stop = true
 	logger.Println("stopping netflow v9 service gracefully ...")
 	time.Sleep(1 * time.Second)
+	// the receive loop may still be handing over a datagram: the queue is closed only after it has ended
+	<-i.done
 
 	// dump the templates to storage
 	if err := mCacheNF9.Dump(opts.NetflowV9TplCacheFile); err != nil {
